@@ -134,6 +134,18 @@ def run(ctx):
             raise Machinery("abstract layout model violates %s: %s" % (r.violated, r.trace_text))
         rows.append((what, r.rows))
         ctx.log("LayoutBoxMC %s: %d configurations, %d states in %.1fs" % (what, len(r.rows), r.distinct, r.wall))
+    # the implementation-shaped model (numpy strided views, pack / Alltoall / unpack, redirects) refines LayoutAbs on its box
+    tcfg = ("INIT Init\nNEXT Next\nCONSTANTS ND = %d MaxExt = %d MaxP = %d MaxLay = %d SampleK = %d SampleNDs = {%s} SampleExt = %d SampleLay = %d\n"
+            "INVARIANT NoError\nINVARIANT DestCorrect\nINVARIANT SourceIntact\nCHECK_DEADLOCK FALSE\n")
+    tboxes = [("3-D ext<=3, P<=3, 2 layouts", tcfg % (3, 3, 3, 2, 0, "3", 3, 3)), ("sampled 3-D/4-D ext<=4, <=4 layouts", tcfg % (3, 1, 3, 2, 60 if quick else 600, "3,4", 4, 4))]
+    if not quick:
+        tboxes += [("3-D ext<=3, P<=3, 3 layouts", tcfg % (3, 3, 3, 3, 0, "3", 3, 3)), ("4-D ext<=2, P<=2, 2 layouts", tcfg % (4, 2, 2, 2, 0, "4", 2, 2))]
+    for what, cfg in tboxes:
+        r = ctx.tlc("TransposeMC", cfg, what="Transpose refines LayoutAbs: " + what, seed=ctx.seed + 5, timeout=7200, big=not quick)
+        ctx.log("TransposeMC %s: %d states in %.1fs %s" % (what, r.distinct, r.wall, r.violated or "ok"))
+        if r.violated:
+            ctx.drift_report("Transpose.tla (transcription of LayoutHandler.transpose on numpy views) violates %s on box '%s': either the transcription "
+                             "drifted from the code or the algorithm is wrong there - the replay below decides: %s" % (r.violated, what, (r.trace_text or "")[:600]))
     ctx.exhaustive = True
     # choose what to replay
     chosen = []
